@@ -75,7 +75,29 @@ type State struct {
 	// subject whose redefinition (re-entry of its defining block) resets the mark; nil = never reset.
 	Marks map[string]ssa.Value
 	Outer *State // state at the closure creation site (for nested exploration), for witness only
+	// Stack holds the resume points of same-package helpers being explored inline (InlineHelpers mode).
+	Stack []inlFrame
+	// Segs, when non-nil, refines Trail into executed instruction ranges (a caller block is split around an inlined call).
+	Segs []trailSeg
 }
+
+type inlFrame struct {
+	call *ssa.Call
+	b    *ssa.BasicBlock
+	idx  int
+}
+
+type trailSeg struct {
+	b        *ssa.BasicBlock
+	from, to int
+}
+
+// InlineHelpers switches the explorer to "helpers inline" mode: a static call of an unexported function of the
+// root's own package (with a body, not recursive, bounded depth and size) is explored as part of the caller's path —
+// parameters are bound to the canonical arguments, the callee's returns resume the caller with the results bound.
+// The driver enables it for a second pass over a check that did not pass as written (helper extraction is the most
+// common behaviour-preserving refactoring); an obligation discharged in either pass is discharged.
+var InlineHelpers bool
 
 // NewState creates an empty state for fn.
 func (p *Prog) NewState(fn *ssa.Function) *State {
@@ -95,6 +117,12 @@ func (s *State) clone() *State {
 		n.Facts[k] = v
 	}
 	n.Trail = append([]*ssa.BasicBlock(nil), s.Trail...)
+	if len(s.Stack) > 0 {
+		n.Stack = append([]inlFrame(nil), s.Stack...)
+	}
+	if s.Segs != nil {
+		n.Segs = append([]trailSeg(nil), s.Segs...)
+	}
 	n.Snap = s.Snap
 	if len(s.Marks) > 0 {
 		n.Marks = make(map[string]ssa.Value, len(s.Marks))
@@ -330,6 +358,11 @@ func (s *State) SetRel(x, y ssa.Value, rel Rel) bool {
 	if ky == "nil" && structNonNil(cx) || kx == "nil" && structNonNil(cy) {
 		return rel&NE != 0
 	}
+	// a package-level error value (ErrXxx) and a nil-transparent wrapper of a non-nil error are never nil: the branch
+	// "helper returned ErrXxx, caller saw nil" is infeasible
+	if ky == "nil" && s.errNeverNil(cx, 0) || kx == "nil" && s.errNeverNil(cy, 0) {
+		return rel&NE != 0
+	}
 	if kx > ky {
 		kx, ky = ky, kx
 		rel = flip(rel)
@@ -506,9 +539,11 @@ func knownSyncCallee(ci ssa.CallInstruction) bool {
 }
 
 type workItem struct {
-	b    *ssa.BasicBlock
-	pred *ssa.BasicBlock
-	s    *State
+	b     *ssa.BasicBlock
+	pred  *ssa.BasicBlock
+	s     *State
+	start int  // first instruction to process (>0: resuming a caller block after an inlined call)
+	entry bool // entering an inlined callee's first block
 }
 
 func (e *Explorer) isVolatile(a *ssa.Alloc) bool {
@@ -575,6 +610,12 @@ func (e *Explorer) isVolatile(a *ssa.Alloc) bool {
 func (e *Explorer) stateHash(b *ssa.BasicBlock, s *State) string {
 	var sb strings.Builder
 	sb.WriteString(strconv.Itoa(b.Index))
+	if len(s.Stack) > 0 {
+		sb.WriteString("@" + b.Parent().Name())
+		for _, fr := range s.Stack {
+			sb.WriteString("/" + strconv.Itoa(e.P.id(fr.call)))
+		}
+	}
 	sb.WriteByte(';')
 	var ks []string
 	for k, v := range s.Res {
@@ -680,7 +721,7 @@ func (e *Explorer) Run(fn *ssa.Function, init *State) {
 		stack = stack[:len(stack)-1]
 		s, b := it.s, it.b
 		// phi resolution (parallel) then invalidation of values defined here
-		if it.pred != nil {
+		if it.start == 0 && it.pred != nil {
 			pi := -1
 			for i, pb := range b.Preds {
 				if pb == it.pred {
@@ -707,19 +748,70 @@ func (e *Explorer) Run(fn *ssa.Function, init *State) {
 				s.Res[phi] = v
 			}
 		}
-		h := e.stateHash(b, s)
-		if visited[h] {
-			continue
+		if it.start == 0 {
+			h := e.stateHash(b, s)
+			if visited[h] {
+				continue
+			}
+			visited[h] = true
+			e.States++
+			if e.States > e.MaxStates {
+				e.Truncated = true
+				return
+			}
+			s.Trail = append(s.Trail, b)
 		}
-		visited[h] = true
-		e.States++
-		if e.States > e.MaxStates {
-			e.Truncated = true
-			return
+		if InlineHelpers {
+			s.Segs = append(s.Segs, trailSeg{b, it.start, len(b.Instrs)})
 		}
-		s.Trail = append(s.Trail, b)
 		alive := true
-		for _, ins := range b.Instrs {
+		descended := false
+		for idx := it.start; idx < len(b.Instrs); idx++ {
+			ins := b.Instrs[idx]
+			if InlineHelpers {
+				if call, ok := ins.(*ssa.Call); ok {
+					if g := e.inlinable(s, fn, call); g != nil {
+						if e.OnInstr != nil && !e.OnInstr(s, ins) {
+							alive = false
+							break
+						}
+						for _, gb := range g.Blocks {
+							e.invalidate(s, gb)
+						}
+						args := call.Call.Args
+						for k, pv := range g.Params {
+							if k < len(args) {
+								s.Res[pv] = s.Canon(args[k])
+							}
+						}
+						s.Segs[len(s.Segs)-1].to = idx + 1
+						s.Stack = append(s.Stack, inlFrame{call, b, idx + 1})
+						stack = append(stack, workItem{b: g.Blocks[0], s: s, entry: true})
+						descended = true
+						break
+					}
+				}
+				if ret, ok := ins.(*ssa.Return); ok && len(s.Stack) > 0 {
+					fr := s.Stack[len(s.Stack)-1]
+					s.Stack = s.Stack[:len(s.Stack)-1]
+					switch len(ret.Results) {
+					case 0:
+					case 1:
+						s.Res[fr.call] = s.Canon(ret.Results[0])
+					default:
+						if refs := fr.call.Referrers(); refs != nil {
+							for _, r := range *refs {
+								if ex, ok := r.(*ssa.Extract); ok && ex.Index < len(ret.Results) {
+									s.Res[ex] = s.Canon(ret.Results[ex.Index])
+								}
+							}
+						}
+					}
+					stack = append(stack, workItem{b: fr.b, s: s, start: fr.idx})
+					descended = true
+					break
+				}
+			}
 			switch x := ins.(type) {
 			case *ssa.Store:
 				if cell := e.P.cellOf(s.Canon(x.Addr)); cell != nil {
@@ -760,6 +852,9 @@ func (e *Explorer) Run(fn *ssa.Function, init *State) {
 		}
 		if !alive {
 			e.Paths++
+			continue
+		}
+		if descended {
 			continue
 		}
 		last := b.Instrs[len(b.Instrs)-1]
@@ -853,6 +948,23 @@ func (s *State) RetVal(ret *ssa.Return, i int) ssa.Value {
 // Executed reports whether an instruction satisfying pred was executed on this path before `at`
 // (searching the current function's trail and the creation-site paths of enclosing closures).
 func (s *State) Executed(at ssa.Instruction, pred func(ins ssa.Instruction) bool) bool {
+	if s.Segs != nil {
+		for i, sg := range s.Segs {
+			for j := sg.from; j < sg.to && j < len(sg.b.Instrs); j++ {
+				ins := sg.b.Instrs[j]
+				if ins == at && i == len(s.Segs)-1 {
+					break
+				}
+				if pred(ins) {
+					return true
+				}
+			}
+		}
+		if s.Outer != nil {
+			return s.Outer.Executed(nil, pred)
+		}
+		return false
+	}
 	for _, b := range s.Trail {
 		for _, ins := range b.Instrs {
 			if ins == at && b == s.Trail[len(s.Trail)-1] {
@@ -999,6 +1111,64 @@ func scalarCell(a *ssa.Alloc) bool {
 	switch pt.Elem().Underlying().(type) {
 	case *types.Basic, *types.Pointer, *types.Interface, *types.Chan, *types.Signature:
 		return true
+	}
+	return false
+}
+
+// inlinable returns the callee of call when it is to be explored inline (see InlineHelpers).
+func (e *Explorer) inlinable(s *State, root *ssa.Function, call *ssa.Call) *ssa.Function {
+	g := call.Call.StaticCallee()
+	if g == nil || len(g.Blocks) == 0 || len(g.Blocks) > 80 || g.Pkg == nil || len(s.Stack) >= 3 {
+		return nil
+	}
+	rootPkg := Outermost(root).Pkg
+	if rootPkg == nil || g.Pkg != rootPkg || g.Parent() != nil || g.Synthetic != "" {
+		return nil
+	}
+	if n := g.Name(); n == "" || !(n[0] >= 'a' && n[0] <= 'z') {
+		return nil
+	}
+	if g == Outermost(root) {
+		return nil
+	}
+	for _, fr := range s.Stack {
+		if fr.call.Call.StaticCallee() == g {
+			return nil
+		}
+	}
+	if e.P.IsGenerated(g.Pos()) {
+		return nil
+	}
+	return g
+}
+
+func (s *State) errNeverNil(cv ssa.Value, depth int) bool {
+	if depth > 3 {
+		return false
+	}
+	if u, ok := cv.(*ssa.UnOp); ok && u.Op == token.MUL {
+		if g, ok := u.X.(*ssa.Global); ok && strings.HasPrefix(g.Name(), "Err") {
+			return true
+		}
+	}
+	if c := ResultCallTo(cv, nilTransparent...); c != nil && len(c.Call.Args) > 0 {
+		a := s.Canon(c.Call.Args[0])
+		if structNonNil(a) || s.errNeverNil(a, depth+1) {
+			return true
+		}
+		k := s.Key(a)
+		kx, ky := k, "nil"
+		fl := false
+		if kx > ky {
+			kx, ky = ky, kx
+			fl = true
+		}
+		if r, ok := s.Facts[kx+"|"+ky]; ok {
+			if fl {
+				r = flip(r)
+			}
+			return r&EQ == 0
+		}
 	}
 	return false
 }
